@@ -5,9 +5,10 @@ package main
 
 import (
 	"fmt"
-	"sort"
+	"go/constant"
 	"go/token"
 	"go/types"
+	"sort"
 	"strings"
 
 	"golang.org/x/tools/go/ssa"
@@ -183,9 +184,9 @@ func (c *Canon) s(v ssa.Value) string {
 	case *ssa.Field:
 		return c.S(x.X) + "." + fieldName(x.X.Type(), x.Field)
 	case *ssa.IndexAddr:
-		return c.S(x.X) + "[" + c.idx(x.Index) + "]"
+		return c.S(x.X) + "[" + c.idxOf(x.X, x.Index) + "]"
 	case *ssa.Index:
-		return c.S(x.X) + "[" + c.idx(x.Index) + "]"
+		return c.S(x.X) + "[" + c.idxOf(x.X, x.Index) + "]"
 	case *ssa.Lookup:
 		return c.S(x.X) + "[" + c.S(x.Index) + "]"
 	case *ssa.UnOp:
@@ -297,6 +298,77 @@ func (c *Canon) idx(v ssa.Value) string {
 		return "range"
 	}
 	return c.S(v)
+}
+
+// idxOf: like idx, and the induction variable of the canonical counted loop over the indexed container itself
+// (for i := 0; i < len(X); i++ { … X[i] … }) is the same full traversal as `range X`.
+func (c *Canon) idxOf(base, v ssa.Value) string {
+	if isRangeIndex(v) {
+		return "range"
+	}
+	if p, ok := v.(*ssa.Phi); ok && len(p.Edges) == 2 && p.Comment != "rangeindex" {
+		if bound := countedLoopBound(p); bound != nil {
+			if call, ok := bound.(*ssa.Call); ok {
+				if b, ok := call.Call.Value.(*ssa.Builtin); ok && b.Name() == "len" && len(call.Call.Args) == 1 {
+					if c.busy[p] {
+						return c.S(v)
+					}
+					c.busy[p] = true
+					same := c.S(call.Call.Args[0]) == c.S(base)
+					delete(c.busy, p)
+					if same {
+						return "range"
+					}
+				}
+			}
+		}
+	}
+	return c.S(v)
+}
+
+// countedLoopBound: p is `i` of `for i := 0; i < B; i++`; returns B.
+func countedLoopBound(p *ssa.Phi) ssa.Value {
+	if init, b, ok := countedLoop(p); ok && init == 0 {
+		return b
+	}
+	return nil
+}
+
+// countedLoop: p is `i` of `for i := k; i < B; i++` (φ(k, i+1) with constant k, the loop header branches on i < B,
+// no other definition of i); returns k and B.
+func countedLoop(p *ssa.Phi) (int64, ssa.Value, bool) {
+	if len(p.Edges) != 2 || p.Comment == "rangeindex" {
+		return 0, nil, false
+	}
+	var init int64
+	hasInit, step := false, false
+	for _, e := range p.Edges {
+		switch x := e.(type) {
+		case *ssa.Const:
+			if x.Value != nil && x.Value.Kind() == constant.Int {
+				init, hasInit = x.Int64(), true
+			}
+		case *ssa.BinOp:
+			if x.Op == token.ADD && x.X == ssa.Value(p) {
+				if k, ok := x.Y.(*ssa.Const); ok && k.Value != nil && k.Value.ExactString() == "1" {
+					step = true
+				}
+			}
+		}
+	}
+	if !hasInit || !step {
+		return 0, nil, false
+	}
+	blk := p.Block()
+	iff, ok := blk.Instrs[len(blk.Instrs)-1].(*ssa.If)
+	if !ok {
+		return 0, nil, false
+	}
+	cmp, ok := iff.Cond.(*ssa.BinOp)
+	if !ok || cmp.Op != token.LSS || cmp.X != ssa.Value(p) {
+		return 0, nil, false
+	}
+	return init, cmp.Y, true
 }
 
 func isRangeIndex(v ssa.Value) bool {
